@@ -8,6 +8,8 @@ connection fresh / reused, x framing of the adapted head).  Virgin body byte i =
 (period 251) and the heads carry X-Virgin / X-Adapted markers, so the observer (client for RESPMOD, origin for
 REQMOD) can tell exactly which message, or which mix, it got.
 """
+import glob
+import os
 import re
 
 from vverif import httpref
@@ -482,6 +484,21 @@ RULE = ('product of mode {REQMOD, RESPMOD} x virgin body size x preview {off, 0,
         'ran to its scripted answer and the observer received a classifiable message (virgin / adapted / error / truncated)')
 
 
+def build(ctx):
+    """lockstep.build_squid plus a forced relink when a convenience library is newer than the binary: automake
+    leaves libraries named through $(VARIABLES) in squid_LDADD (e.g. $(ADAPTATION_LIBS)) out of squid_DEPENDENCIES,
+    so after a change below src/adaptation/ `make all` rebuilds libadaptation.la but not src/squid."""
+    exe = ls.build_squid(ctx)
+    libs = glob.glob(os.path.join(ctx.tree, 'src', '*', '.libs', '*.a')) + glob.glob(os.path.join(ctx.tree, 'src', '*', '*', '.libs', '*.a'))
+    newer = [l for l in libs if os.path.getmtime(l) > os.path.getmtime(exe)]
+    if newer:
+        ctx.vbuild('src:-W main.o squid')          # -W: treat main.o as new => relink, nothing is touched
+        stale = [l for l in newer if os.path.getmtime(l) > os.path.getmtime(exe)]
+        if stale:
+            raise HarnessError('squid binary is older than %s even after a forced relink' % stale[:3])
+    return exe
+
+
 _TRANSCRIPTS = {}
 _SEEN = {}          # per shard process: violation key -> case numbers, in order of first appearance
 PER_KEY = 2         # cases per key and shard that go through confirmation replays and are reported individually
@@ -515,7 +532,7 @@ def run_case_dedup(w, c):
 
 
 def run(ctx):
-    ls.build_squid(ctx)
+    build(ctx)
     cases = all_cases(ctx)
     r = ls.run_cases(ctx, cases, run_case_dedup, make_world, key_of=describe, determinism_n=8)
     oc = r['outcomes']
@@ -564,7 +581,7 @@ def run(ctx):
 
 
 def replay(ctx, data):
-    ls.build_squid(ctx)
+    build(ctx)
     w = make_world(ctx, 0)
     w.start()
     try:
